@@ -1,7 +1,7 @@
 """Effect / alias rules over the library's call-time code (C11.handlers, C12.*)."""
 import ast
 
-from ..events import Summaries, calls_in, fi_of_term, context_vars, module_level_mutables, find_wrappers, WrapperRoles
+from ..events import bind_call, Summaries, calls_in, fi_of_term, context_vars, module_level_mutables, find_wrappers, WrapperRoles
 from ..flow import get_flow, show, strip_sites, subterms
 from ..model import AnalysisError, first_line, src_of
 from . import meta
@@ -335,6 +335,26 @@ def no_other_state(run, model, rule="C12.no-other-state"):
             for a in alts:
                 if a in mutables or (a[0] == "global") or a[0] == "closure" or (a[0] == "attr" and a[1][0] in ("closure", "func", "global")):
                     bad.append((n.stmt, "mutates %s in place at call time (shared by all threads and tasks)" % show(strip_sites(a), 60)))
+        # a long-lived object handed to a package function that mutates that parameter in place
+        for n in flow.cfg.nodes:
+            for call, cond, aw in calls_in(n):
+                g = fi_of_term(model, flow.term(call.func, n))
+                if g is None:
+                    continue
+                mp = meta.mutated_params(model, g, summ)
+                if not mp:
+                    continue
+                b = bind_call(g, call) or {}
+                for p_ in sorted(mp):
+                    if p_ not in b:
+                        continue
+                    at = flow.term(b[p_], n)
+                    if at[0] == "param" or (at[0] == "attr" and at[1] == ("param", "self")):
+                        continue  # summarised into this function's own mutated parameters / the visitor's own table
+                    alts = at[1] if at[0] == "phi" else (at,)
+                    if all(meta.ownership(model, a_, summ) == "fresh" or a_ == ("const", "None") for a_ in alts):
+                        continue
+                    bad.append((n.stmt, "hands %s to `%s`, which mutates its parameter `%s` in place: the object outlives the call and is shared by all threads and tasks" % (show(strip_sites(at), 60), g.name, p_)))
         if bad:
             for st, why in bad[:3]:
                 run.violation(rule, fi.qual, why, fi.loc(st), None, first_line(st))
